@@ -476,5 +476,163 @@ theorem c07_origin_insecure_any_cert (vf : Verifier) (allowHTTP : Bool) (c : Cer
   unfold interceptedTo
   exact c07_insecure_forwards allowHTTP _
 
+/-! ## G. Origin verification over histories on ONE proxy instance
+
+  `up` = the upstream proxy configuration, a history = any list of events (CONNECTs tunnelled because
+  mitm-domains excludes them, requests read from intercepted sessions, plain `GET https://…`), each
+  verifying event opening a fresh origin connection.  Byte strings of the examples:
+    "p.test" = [112,46,116,101,115,116]   (the upstream proxy's host)
+    "t.test:443" = [116,46,116,101,115,116,58,52,52,51]   "a.test:443" = [97,46,116,101,115,116,58,52,52,51] -/
+
+/-- the TLS client configuration is per connection: no history changes the transport's own -/
+theorem c07_transport_conf_untouched (up : Upstream) (vf : Verifier) (allowHTTP insecure : Bool)
+    (st : Inst) (evs : List Event) : histState .cloned up vf allowHTTP insecure st evs = st :=
+  histState_of_state_fixed .cloned up vf allowHTTP insecure st evs
+    (fun e _ => evStep_cloned_state up vf allowHTTP insecure st e)
+
+/-- MAIN: for every upstream configuration and every history, every origin is verified for ITS OWN
+    host (`URL.Hostname()` of the request's authority) and gets the history-free outcome -/
+theorem c07_history_verify_name_is_origin_host (up : Upstream) (vf : Verifier)
+    (allowHTTP insecure : Bool) (evs : List Event) :
+    runHist .cloned up vf allowHTTP insecure Inst.fresh evs = evs.map (specOut vf allowHTTP insecure) := by
+  rw [runHist_of_state_fixed .cloned up vf allowHTTP insecure Inst.fresh evs
+    (fun e _ => evStep_cloned_state up vf allowHTTP insecure Inst.fresh e)]
+  exact List.map_congr_left (fun e _ => evStep_fresh_out .cloned up vf allowHTTP insecure e)
+
+/-- the name itself, event by event: the `k`-th event of any history, when it verifies an origin,
+    verifies it for the host of that event's authority -/
+theorem c07_verify_name_kth (up : Upstream) (vf : Verifier) (allowHTTP insecure : Bool)
+    (evs : List Event) (k : Nat) (n : Bytes) (o : Outcome)
+    (h : (runHist .cloned up vf allowHTTP insecure Inst.fresh evs)[k]? = some (.origin n o)) :
+    ∃ r, (evs[k]? = some (.intercepted r) ∨ evs[k]? = some (.absolute r)) ∧
+      n = originVerifyName r.authority := by
+  rw [c07_history_verify_name_is_origin_host, List.getElem?_map] at h
+  cases he : evs[k]? with
+  | none => rw [he] at h; cases h
+  | some e =>
+    rw [he] at h
+    cases e with
+    | tunnel t => simp [specOut] at h
+    | intercepted r =>
+      refine ⟨r, Or.inl rfl, ?_⟩
+      simp only [Option.map_some, specOut, Option.some.injEq, EvOut.origin.injEq] at h
+      exact h.1.symm
+    | absolute r =>
+      refine ⟨r, Or.inr rfl, ?_⟩
+      simp only [Option.map_some, specOut, Option.some.injEq, EvOut.origin.injEq] at h
+      exact h.1.symm
+
+/-- history independence: whatever happened on the instance before (`pre`), a history gets exactly
+    what it gets on a fresh instance -/
+theorem c07_history_independent (up : Upstream) (vf : Verifier) (allowHTTP insecure : Bool)
+    (pre evs : List Event) :
+    runHist .cloned up vf allowHTTP insecure
+        (histState .cloned up vf allowHTTP insecure Inst.fresh pre) evs =
+      runHist .cloned up vf allowHTTP insecure Inst.fresh evs := by
+  rw [c07_transport_conf_untouched]
+
+/-- … in particular every single event: its verdict after any prefix is its verdict alone on a
+    fresh instance -/
+theorem c07_event_verdict_is_fresh_verdict (up : Upstream) (vf : Verifier) (allowHTTP insecure : Bool)
+    (pre : List Event) (e : Event) :
+    (runHist .cloned up vf allowHTTP insecure Inst.fresh (pre ++ [e])).getLast? =
+      (runHist .cloned up vf allowHTTP insecure Inst.fresh [e]).getLast? := by
+  simp [c07_history_verify_name_is_origin_host]
+
+/-- the clause, inside any history: an origin whose certificate does not verify for its own host
+    (expired / other name / untrusted) is refused with 502, insecure mode off — whatever CONNECTs
+    were tunnelled before, through whatever upstream proxy -/
+theorem c07_history_bad_cert_refused (up : Upstream) (allowHTTP : Bool) (evs : List Event) (k : Nat)
+    (r : OriginReq) (hk : evs[k]? = some (.intercepted r) ∨ evs[k]? = some (.absolute r))
+    (hbad : x509ish r.cert (originVerifyName r.authority) r.now = false) :
+    (runHist .cloned up x509ish allowHTTP false Inst.fresh evs)[k]? =
+      some (.origin (originVerifyName r.authority) .refused502) := by
+  rw [c07_history_verify_name_is_origin_host, List.getElem?_map]
+  rcases hk with hk | hk
+  · rw [hk]
+    simp only [Option.map_some, specOut]
+    rw [(interceptedTo_refused allowHTTP (by simpa [originVerifies] using hbad)).1]
+  · rw [hk]
+    simp only [Option.map_some, specOut]
+    rw [absoluteAs_refused allowHTTP hbad]
+
+/-- … and a certificate that is good for the origin's own host is served in every history -/
+theorem c07_history_good_cert_served (up : Upstream) (allowHTTP insecure : Bool) (evs : List Event)
+    (k : Nat) (r : OriginReq) (hk : evs[k]? = some (.intercepted r))
+    (hgood : x509ish r.cert (originVerifyName r.authority) r.now = true) :
+    (runHist .cloned up x509ish allowHTTP insecure Inst.fresh evs)[k]? =
+      some (.origin (originVerifyName r.authority) .deliverTLS) := by
+  rw [c07_history_verify_name_is_origin_host, List.getElem?_map, hk]
+  simp only [Option.map_some, specOut, interceptedTo, originVerifies, hgood]
+  rw [c07_valid_origin_forwards]
+
+/-- WITNESS for the shared-configuration variant (`clientTLSConfig` handing out the transport's
+    configuration itself): upstream proxy `https://p.test`, one tunnelled CONNECT, then two
+    intercepted requests for `a.test:443` — the origin presenting a (trusted, current) certificate
+    for the PROXY's name "p.test" is accepted and the one presenting a certificate for "a.test" is
+    refused; both are verified for "p.test".  Without the CONNECT in front it is the other way round. -/
+theorem c07_shared_conf_witness :
+    let p : Bytes := [112,46,116,101,115,116]
+    let a : Bytes := [97,46,116,101,115,116,58,52,52,51]
+    let certP : Cert := { cn := p, kind := .dns, sanVal := p, notBefore := 0, notAfter := 10, byCA := true }
+    let certA : Cert := { cn := [97,46,116,101,115,116], kind := .dns, sanVal := [97,46,116,101,115,116],
+                          notBefore := 0, notAfter := 10, byCA := true }
+    runHist .shared (.https p) x509ish true false Inst.fresh
+        [.tunnel [116,46,116,101,115,116,58,52,52,51], .intercepted ⟨a, certP, 5⟩, .intercepted ⟨a, certA, 5⟩] =
+      [.tunnelled, .origin p .deliverTLS, .origin p .refused502] ∧
+    runHist .shared (.https p) x509ish true false Inst.fresh
+        [.intercepted ⟨a, certP, 5⟩, .intercepted ⟨a, certA, 5⟩] =
+      [.origin [97,46,116,101,115,116] .refused502, .origin [97,46,116,101,115,116] .deliverTLS] := by
+  decide
+
+/-- the statement of `c07_history_verify_name_is_origin_host` for the shared variant is FALSE -/
+def c07_shared_conf_full : Prop :=
+  ∀ (up : Upstream) (evs : List Event),
+    runHist .shared up x509ish true false Inst.fresh evs = evs.map (specOut x509ish true false)
+
+theorem c07_shared_conf_full_false : ¬ c07_shared_conf_full := by
+  intro h
+  have := h (.https [112,46,116,101,115,116])
+    [.tunnel [116,46,116,101,115,116,58,52,52,51],
+     .intercepted ⟨[97,46,116,101,115,116,58,52,52,51],
+       { cn := [112,46,116,101,115,116], kind := .dns, sanVal := [112,46,116,101,115,116],
+         notBefore := 0, notAfter := 10, byCA := true }, 5⟩]
+  revert this
+  decide
+
+/-- the witness needs the CONFIGURATION: without an `https://` upstream proxy (direct, `http://`,
+    `socks5://`) sharing the configuration changes nothing -/
+theorem c07_shared_conf_needs_https_upstream {up : Upstream} (hup : ∀ p, up ≠ .https p)
+    (vf : Verifier) (allowHTTP insecure : Bool) (evs : List Event) :
+    runHist .shared up vf allowHTTP insecure Inst.fresh evs = evs.map (specOut vf allowHTTP insecure) := by
+  rw [runHist_of_state_fixed .shared up vf allowHTTP insecure Inst.fresh evs
+    (fun e _ => by cases e <;> simp [evStep, tunnelStep_not_https .shared hup])]
+  exact List.map_congr_left (fun e _ => evStep_fresh_out .shared up vf allowHTTP insecure e)
+
+/-- … and the HISTORY: without a tunnelled CONNECT in it, likewise -/
+theorem c07_shared_conf_needs_tunnelled_connect (up : Upstream) (vf : Verifier)
+    (allowHTTP insecure : Bool) (evs : List Event) (hno : ∀ e ∈ evs, ∀ t, e ≠ .tunnel t) :
+    runHist .shared up vf allowHTTP insecure Inst.fresh evs = evs.map (specOut vf allowHTTP insecure) := by
+  rw [runHist_of_state_fixed .shared up vf allowHTTP insecure Inst.fresh evs
+    (fun e he => by
+      cases e with
+      | tunnel t => exact absurd rfl (hno _ he t)
+      | intercepted r => rfl
+      | absolute r => rfl)]
+  exact List.map_congr_left (fun e _ => evStep_fresh_out .shared up vf allowHTTP insecure e)
+
+-- non-vacuity: a history mixing all three kinds of event behind an https upstream proxy; the
+-- wrong-name origin (certificate for the proxy's name) is refused before and after the CONNECT
+example :
+    let p : Bytes := [112,46,116,101,115,116]
+    let a : Bytes := [97,46,116,101,115,116,58,52,52,51]
+    let certP : Cert := { cn := p, kind := .dns, sanVal := p, notBefore := 0, notAfter := 10, byCA := true }
+    runHist .cloned (.https p) x509ish true false Inst.fresh
+        [.intercepted ⟨a, certP, 5⟩, .tunnel [116,46,116,101,115,116,58,52,52,51],
+         .intercepted ⟨a, certP, 5⟩, .absolute ⟨a, certP, 5⟩] =
+      [.origin [97,46,116,101,115,116] .refused502, .tunnelled,
+       .origin [97,46,116,101,115,116] .refused502, .origin [97,46,116,101,115,116] .refused502] := by
+  decide
+
 end C07
 end FwdVerif
